@@ -17,6 +17,7 @@ type Pos struct {
 	IsProp     bool
 	IsRequired bool
 	IsItem     bool
+	IsMapValue bool
 	Nullable   bool
 	InArrayDef bool // below a *definition* (or root) whose own type is array: declared array type, K20
 	ViaRef     bool
@@ -127,6 +128,9 @@ func (g *G) FullSample(s M, depth int) any {
 				o[k] = g.FullSample(props[k].(M), depth+1)
 			}
 		}
+		if am, ok := s["additionalProperties"].(M); ok && len(props) == 0 && depth < 6 {
+			o["k1"] = g.FullSample(am, depth+1)
+		}
 		return o
 	}
 	return 1
@@ -171,13 +175,20 @@ func (g *G) Positions(root M, doc any) []Pos {
 			}
 			for _, k := range core.SortedKeys(t) {
 				ps, ok := props[k].(M)
+				isMapValue := false
 				if !ok {
-					continue
+					// a value of a property-less object governed by a typed additionalProperties (a Go map)
+					if am, isM := rs["additionalProperties"].(M); isM && len(props) == 0 {
+						ps, isMapValue = am, true
+					} else {
+						continue
+					}
 				}
 				np := p
 				np.Path = append(append([]any(nil), p.Path...), k)
-				np.IsProp, np.IsRequired, np.IsItem = true, req[k], false
-				np.Via = append(append([]string(nil), p.Via...), "prop")
+				np.IsProp, np.IsRequired, np.IsItem = !isMapValue, req[k], false
+				np.IsMapValue = isMapValue
+				np.Via = append(append([]string(nil), p.Via...), map[bool]string{false: "prop", true: "mapv"}[isMapValue])
 				walk(ps, t[k], np, depth+1)
 			}
 		case []any:
